@@ -54,6 +54,12 @@ CHECKS = {
    text="1.2M bodies of func() int (quick): every statement form nested to depth 2 with one statement per inner block, all two-statement bodies of depth 1, shadowed-panic variants, a label family; only bodies whose reference text has no other go/types error are judged; the multiset of the three studied diagnostics must coincide.",
    note="Trusted: go/types 1.23.5; the statement driver (labels pre-created per function body).",
    design="§4 C10"),
+ "C16": dict(
+   category="model_checking",
+   technique="exhaustive exploration of well-nested construct histories on the real CodeBuilder against a pushdown model of stack height / scope / function / label frames, compared after every operation",
+   text="All histories nesting 19 block-forming constructs to depth 3 (4 thorough) with 0-2 simple statements around the nested construct at each level, in three current-file regimes, plus all 4^8 chains of depth 8 over one representative per context-saving mechanism: 109k histories / 11M operations (quick). After every operation the stack delta equals the documented arity; after every statement the stack is at the block's base; after every End the stack height, Scope(), Func(), InVBlock() and label visibility equal the values recorded at open; finally the package type-checks.",
+   note="Trusted: the arity table embedded in the driver (documented arities); the frame model.",
+   design="§4 C16"),
 }
 
 NOT_APPLICABLE = {
